@@ -914,8 +914,8 @@ def contains_jordan_world(ctx, out, parts=("vertices", "mids", "flag")):
 
 def r03_4(ctx):
     out = Outcome("R03.4", "SimpleShape._contains_jordan returns False as soon as a vertex of the curve is not "
-                           "contained (caller's boundary flag), and tests points between consecutive crossings", floor=2)
-    contains_jordan_world(ctx, out, ("vertices", "mids"))
+                           "contained (caller's boundary flag), and tests points between consecutive crossings", floor=3)
+    contains_jordan_world(ctx, out, ("vertices", "mids", "flag"))
     return out
 
 
